@@ -1000,25 +1000,26 @@ static void run_c01_c04(void) {
             vh_class("bit_io", "72 start positions x 64 widths x 8 values");
         }
         /* the same at far stream positions: the writer / reader structs are public, so a caller may continue a stream
-         * of more than 2^31 / 2^32 bits or 2^32 bytes. Lazily committed 4 GiB stream; oracle: window vs model and
-         * mincore() page-access scan over the whole stream */
+         * of more than 2^31 / 2^32 bits or 2^32 bytes. The stream is a PROT_NONE reservation of 2^42 bits; only the
+         * pages of the window around the addressed bits are accessible: window vs model, any other access faults */
         if (vh_section_begin("bit_io_far")) {
-            size_t maplen = ((size_t)4 << 30) + (1 << 16);
-            uint8_t *map = mmap(NULL, maplen, PROT_READ | PROT_WRITE, MAP_PRIVATE | MAP_ANONYMOUS | MAP_NORESERVE, -1, 0);
-            unsigned char *vec = malloc(maplen / 4096);
+            size_t maplen = (((size_t)1 << 42) / 8) + (1 << 16);
+            uint8_t *map = mmap(NULL, maplen, PROT_NONE, MAP_PRIVATE | MAP_ANONYMOUS | MAP_NORESERVE, -1, 0);
             vh_flag("bit_io_far_mapped", map != MAP_FAILED);
             if (map != MAP_FAILED) {
-                madvise(map, maplen, MADV_NOHUGEPAGE);
-                static const int EXPS[5] = {31, 32, 33, 34, 35};
+                static const int EXPS[10] = {31, 32, 33, 34, 35, 36, 37, 38, 40, 42};
                 static const long DELTAS[8] = {-130, -70, -9, -1, 0, 1, 7, 63};
                 static const size_t WID[5] = {1, 8, 33, 63, 64};
-                for (int ei = 0; ei < 5; ei++) {
+                for (int ei = 0; ei < 10; ei++) {
                     for (int di = 0; di < 8; di++) {
                         for (int wi = 0; wi < 5; wi++) {
                             if (!vh_case()) {
                                 continue;
                             }
                             size_t pos = ((size_t)1 << EXPS[ei]) + (size_t)DELTAS[di], nb = WID[wi];
+                            if (EXPS[ei] == 42 && DELTAS[di] >= 0) {
+                                pos = ((size_t)1 << 42) - 200 - (size_t)DELTAS[di];
+                            }
                             uint64_t mask = nb == 64 ? UINT64_MAX : ((1ULL << nb) - 1);
                             for (int mode = 0; mode < 4; mode++) { /* 0 Write, 1 Read, 2 gamma encode+decode, 3 delta encode+decode */
                                 uint64_t v = mode < 2 ? (0xA5A5A5A5A5A5A5A5ULL & mask) | 1 : (mask >> 1) | 1;
@@ -1027,6 +1028,11 @@ static void run_c01_c04(void) {
                                 size_t wlo = pos / 8 - 8, whi = (pos + bits + 7) / 8 + 8, wl = whi - wlo;
                                 uint8_t model[64];
                                 if (wl > sizeof model || whi > maplen) {
+                                    continue;
+                                }
+                                size_t plo = wlo & ~(size_t)4095, phi = (whi + 4095) & ~(size_t)4095;
+                                if (mprotect(map + plo, phi - plo, PROT_READ | PROT_WRITE) != 0) {
+                                    vh_flag("bit_io_far_mapped", 0);
                                     continue;
                                 }
                                 memset(model, 0, sizeof model);
@@ -1045,6 +1051,8 @@ static void run_c01_c04(void) {
                                 uint64_t got = 0, ret = 0;
                                 varintBitWriter w = {map, pos, maplen};
                                 varintBitReader r = {map, pos, pos + bits};
+                                static const char *MN[4] = {"Write then Read", "Read of independently written bits", "gamma Encode/Decode", "delta Encode/Decode"};
+                                const char *api = mode < 2 ? "elias.BitWriter/BitReader" : mode == 2 ? "elias.gamma" : "elias.delta";
                                 if (SB_ENTER()) {
                                     if (mode == 0) {
                                         varintBitWriterWrite(&w, v, nb);
@@ -1060,35 +1068,22 @@ static void run_c01_c04(void) {
                                     }
                                     SB_LEAVE();
                                 } else {
-                                    vh_fail("elias.BitWriter/BitReader", vh_fault_name(), "untagged", "position 2^%d%+ld width %zu mode %d: %s", EXPS[ei], DELTAS[di], nb, mode, vh_fault_msg);
+                                    uint8_t *fa = (uint8_t *)vh_fault_addr;
+                                    if (fa >= map && fa < map + maplen) {
+                                        vh_fail(api, "touches_foreign_bytes", "untagged", "%s at stream bit position 2^%d%+ld: the bits lie in stream bytes %zu..%zu but stream byte %zu was accessed", MN[mode], EXPS[ei], DELTAS[di], wlo + 8, whi - 9,
+                                                (size_t)(fa - map));
+                                    } else {
+                                        vh_fail(api, vh_fault_name(), "untagged", "position 2^%d%+ld width %zu mode %d: %s", EXPS[ei], DELTAS[di], nb, mode, vh_fault_msg);
+                                    }
                                 }
                                 int bad = memcmp(map + wlo, model, wl) != 0 || got != v || (mode != 1 && w.bitPos != pos + bits) || r.bitPos != pos + bits || (mode >= 2 && ret != bits);
                                 if (bad) {
-                                    static const char *MN[4] = {"Write then Read", "Read of independently written bits", "gamma Encode/Decode", "delta Encode/Decode"};
-                                    vh_fail(mode < 2 ? "elias.BitWriter/BitReader" : mode == 2 ? "elias.gamma" : "elias.delta", memcmp(map + wlo, model, wl) ? "bytes_differ_from_reference" : "roundtrip_mismatch", "untagged",
+                                    vh_fail(api, memcmp(map + wlo, model, wl) ? "bytes_differ_from_reference" : "roundtrip_mismatch", "untagged",
                                             "%s at stream bit position 2^%d%+ld, %zu bits, value 0x%" PRIx64 ": read back 0x%" PRIx64 ", writer bitPos %zu reader bitPos %zu (want %zu), stream bytes %s model %s", MN[mode], EXPS[ei], DELTAS[di], bits, v,
                                             got, w.bitPos, r.bitPos, pos + bits, vh_hex(map + wlo, wl), vh_hex(model, wl));
                                 }
-                                if (mincore(map, maplen, vec) == 0) {
-                                    size_t plo = wlo / 4096, phi = (whi - 1) / 4096, npages = maplen / 4096;
-                                    for (size_t pg = 0; pg < npages; pg++) {
-                                        if (pg + 8 <= npages && ((uintptr_t)(vec + pg) & 7) == 0) {
-                                            uint64_t eight;
-                                            memcpy(&eight, vec + pg, 8);
-                                            if ((eight & 0x0101010101010101ULL) == 0) {
-                                                pg += 7;
-                                                continue;
-                                            }
-                                        }
-                                        if (!(vec[pg] & 1)) {
-                                            continue;
-                                        }
-                                        if (pg < plo || pg > phi) {
-                                            vh_fail("elias.BitWriter/BitReader", "touches_foreign_bytes", "untagged", "mode %d at stream bit position 2^%d%+ld: the page at stream byte %zu was accessed", mode, EXPS[ei], DELTAS[di], pg * 4096);
-                                        }
-                                        madvise(map + pg * 4096, 4096, MADV_DONTNEED);
-                                    }
-                                }
+                                madvise(map + plo, phi - plo, MADV_DONTNEED);
+                                mprotect(map + plo, phi - plo, PROT_NONE);
                                 vh_count("calls", 2);
                             }
                             vh_count("cases", 1);
@@ -1100,7 +1095,6 @@ static void run_c01_c04(void) {
                 }
                 munmap(map, maplen);
             }
-            free(vec);
         }
         /* Elias gamma/delta single codes via the bit writer, zig-zag */
         if (vh_section_begin("elias_zigzag")) {
